@@ -287,6 +287,10 @@ Proof.
   - destruct (add_segment_inv g s Hg) as [(g' & -> & Hg')| ->]; auto.
 Qed.
 
+(** the HashMap iteration orders of the search: any functions returning a permutation *)
+Definition order_ok (ord_v : vertex -> vinfo -> vinfo) (ord_e : vertex -> vertex -> emap -> emap) : Prop :=
+  (forall v l, Permutation (ord_v v l) l) /\ (forall v w l, Permutation (ord_e v w l) l).
+
 (** * search: every edge of every solution is an edge of the graph, at most three of them *)
 Section Search.
 Variable ord_v : vertex -> vinfo -> vinfo.
